@@ -95,4 +95,158 @@ theorem cachedCall_bounded {cap : Nat} {c : Cache κ ν} (k : κ) (r : Except Er
     · exact ⟨hl, hn⟩
 
 end lru
+
+section machine
+variable {α κ ν : Type} [DecidableEq κ]
+
+omit [DecidableEq κ] in
+theorem bounded_nil (cap : Nat) : Bounded cap ([] : Cache κ ν) := ⟨Nat.zero_le _, List.nodup_nil⟩
+
+theorem bounded_step (m : Cfg α κ ν) (s : St κ ν) (op : Op α) (h : Bounded m.cap s.cache) :
+    Bounded m.cap (step m s op).1.cache := by
+  cases op with
+  | call a => exact cachedCall_bounded _ _ h
+  | setOpt n v =>
+    simp only [step]
+    split
+    · exact bounded_nil _
+    · exact h
+  | clear => exact bounded_nil _
+
+theorem bounded_run (m : Cfg α κ ν) (ops : List (Op α)) :
+    ∀ s : St κ ν, Bounded m.cap s.cache → Bounded m.cap (run m s ops).1.cache := by
+  induction ops with
+  | nil => intro s h; exact h
+  | cons op ops ih => intro s h; exact ih _ (bounded_step m s op h)
+
+theorem computed_step (m : Cfg α κ ν) (s : St κ ν) (op : Op α) (h : Computed m s.cache) :
+    Computed m (step m s op).1.cache := by
+  cases op with
+  | call a =>
+    intro e he
+    rcases cachedCall_mem he with he | ⟨v, hv, rfl⟩
+    · exact h e he
+    · exact ⟨s.opts, a, rfl, hv⟩
+  | setOpt n v =>
+    simp only [step]
+    split
+    · intro e he; cases he
+    · exact h
+  | clear => intro e he; cases he
+
+theorem computed_run (m : Cfg α κ ν) (ops : List (Op α)) :
+    ∀ s : St κ ν, Computed m s.cache → Computed m (run m s ops).1.cache := by
+  induction ops with
+  | nil => intro s h; exact h
+  | cons op ops ih => intro s h; exact ih _ (computed_step m s op h)
+
+theorem correct_upto (m : Cfg α κ ν) (R : ν → ν → Prop) (a : α)
+    (hcol : ∀ o o' a' v', m.key a' = m.key a → m.f o' a' = .ok v' → ∃ v, m.f o a = .ok v ∧ R v v')
+    (s : St κ ν) (hc : Computed m s.cache) :
+    match (step m s (.call a)).2 with
+    | some (.ok v') => ∃ v, m.f s.opts a = .ok v ∧ R v v'
+    | some (.error e) => m.f s.opts a = .error e
+    | none => False := by
+  simp only [step]
+  rcases cachedCall_result m.cap s.cache (m.key a) (m.f s.opts a) with h | ⟨v, hm, h⟩
+  · rw [h]
+    cases hf : m.f s.opts a with
+    | ok v' =>
+      obtain ⟨v, hv, hR⟩ := hcol s.opts s.opts a v' rfl hf
+      rw [hf] at hv
+      exact ⟨v, hv, hR⟩
+    | error e => rfl
+  · rw [h]
+    obtain ⟨o', a', hk, hv⟩ := hc _ hm
+    exact hcol s.opts o' a' v hk hv
+
+theorem correct_exact (m : Cfg α κ ν) (a : α)
+    (hopt : ∀ o₁ o₂, m.f o₁ a = m.f o₂ a)
+    (hkey : ∀ a', m.key a' = m.key a → a' = a)
+    (s : St κ ν) (hc : Computed m s.cache) :
+    (step m s (.call a)).2 = some (m.f s.opts a) := by
+  simp only [step]
+  rcases cachedCall_result m.cap s.cache (m.key a) (m.f s.opts a) with h | ⟨v, hm, h⟩
+  · rw [h]
+  · rw [h]
+    obtain ⟨o', a', hk, hv⟩ := hc _ hm
+    have := hkey a' hk
+    subst this
+    rw [hopt s.opts o', hv]
+
+/-! ### option-dependent functions -/
+
+theorem fresh_call (m : Cfg α κ ν) (hk : KeyDetermines m) (s : St κ ν) (hf : Fresh m s.opts s.cache) (a : α) :
+    (step m s (.call a)).2 = some (m.f s.opts a) ∧
+    Fresh m (step m s (.call a)).1.opts (step m s (.call a)).1.cache := by
+  refine ⟨?_, ?_⟩
+  · simp only [step]
+    rcases cachedCall_result m.cap s.cache (m.key a) (m.f s.opts a) with h | ⟨v, hm, h⟩
+    · rw [h]
+    · rw [h]
+      obtain ⟨a', hka, hv⟩ := hf _ hm
+      rw [← hk s.opts a' a hka, hv]
+  · intro e he
+    rcases cachedCall_mem he with he | ⟨v, hv, rfl⟩
+    · exact hf e he
+    · exact ⟨a, rfl, hv⟩
+
+theorem fresh_step (m : Cfg α κ ν) (hk : KeyDetermines m) (hr : ReadsOnlyInvalidating m) (s : St κ ν)
+    (hf : Fresh m s.opts s.cache) (op : Op α) :
+    (step m s op).2 = pureOut m.f s.opts op ∧ (step m s op).1.opts = optsStep s.opts op ∧
+    Fresh m (step m s op).1.opts (step m s op).1.cache := by
+  cases op with
+  | call a => exact ⟨(fresh_call m hk s hf a).1, rfl, (fresh_call m hk s hf a).2⟩
+  | setOpt n v =>
+    refine ⟨rfl, rfl, ?_⟩
+    simp only [step]
+    cases hi : m.inval n with
+    | true => intro e he; simp at he
+    | false =>
+      intro e he
+      simp only [Bool.false_eq_true, if_false] at he
+      obtain ⟨a, hka, hv⟩ := hf e he
+      exact ⟨a, hka, by rw [hr n hi]; exact hv⟩
+  | clear => exact ⟨rfl, rfl, by intro e he; cases he⟩
+
+theorem run_pure (m : Cfg α κ ν) (hk : KeyDetermines m) (hr : ReadsOnlyInvalidating m) (ops : List (Op α)) :
+    ∀ s : St κ ν, Fresh m s.opts s.cache → (run m s ops).2 = pureRun m.f s.opts ops := by
+  induction ops with
+  | nil => intro s _; rfl
+  | cons op ops ih =>
+    intro s hf
+    obtain ⟨h1, h2, h3⟩ := fresh_step m hk hr s hf op
+    simp only [run, pureRun]
+    rw [h1, ih _ h3, h2]
+
+theorem run_opts (m : Cfg α κ ν) (ops : List (Op α)) :
+    ∀ s : St κ ν, (run m s ops).1.opts = optsAfter s.opts ops := by
+  induction ops with
+  | nil => intro s; rfl
+  | cons op ops ih =>
+    intro s
+    simp only [run, optsAfter, List.foldl_cons]
+    rw [ih]
+    cases op <;> rfl
+
+theorem fresh_run (m : Cfg α κ ν) (hk : KeyDetermines m) (hr : ReadsOnlyInvalidating m) (ops : List (Op α)) :
+    ∀ s : St κ ν, Fresh m s.opts s.cache → Fresh m (run m s ops).1.opts (run m s ops).1.cache := by
+  induction ops with
+  | nil => intro s h; exact h
+  | cons op ops ih => intro s hf; exact ih _ (fresh_step m hk hr s hf op).2.2
+
+omit [DecidableEq κ] in
+theorem fresh_init (m : Cfg α κ ν) : Fresh m (St.init : St κ ν).opts (St.init : St κ ν).cache := by
+  intro e he; cases he
+
+theorem restore (m : Cfg α κ ν) (hk : KeyDetermines m) (hr : ReadsOnlyInvalidating m)
+    (ops₁ ops₂ : List (Op α)) (a : α) (h : optsAfter Opts.init ops₁ = optsAfter Opts.init ops₂) :
+    (step m (run m St.init ops₁).1 (.call a)).2 = (step m (run m St.init ops₂).1 (.call a)).2 := by
+  rw [(fresh_call m hk _ (fresh_run m hk hr ops₁ St.init (fresh_init m)) a).1,
+      (fresh_call m hk _ (fresh_run m hk hr ops₂ St.init (fresh_init m)) a).1,
+      run_opts, run_opts]
+  show some (m.f (optsAfter Opts.init ops₁) a) = some (m.f (optsAfter Opts.init ops₂) a)
+  rw [h]
+
+end machine
 end BM.C09
